@@ -11,7 +11,14 @@ from .loops import loops_of, item_filter, keep_table
 
 def cexpr(t):
     """Normal form of a VClock-valued term: minus / join / meet over leaves (AC-normalised)."""
-    t = drop_lv(t)
+    if t[0] == 'lv' and not (t[2].startswith('L') or t[2].startswith('SL')):
+        return cexpr(t[3])   # an element read through a container that changes in the loop: identity is the element
+    if t[0] == 'lv':
+        # a loop-carried clock (scratch variable living across iterations): it equals its initial value in the first
+        # iteration only, so it is an opaque leaf and never the fresh copy its initialiser suggests
+        return ('leaf', ('carried', t[1], t[2]))
+    if t[0] == 'at':
+        return cexpr(t[2])
     if t[0] == 'post' and t[1][0] == 'call' and t[2] == 0:
         c = t[1]
         n = call_name(c)
@@ -29,7 +36,15 @@ def cexpr(t):
             return ('meet', frozenset([cexpr(t[2][0]), cexpr(t[2][1])]))
     if t[0] == 'obj':
         return cexpr(t[1])
-    return ('leaf', t)
+    return ('leaf', drop_lv(t))
+
+
+def removed_info(e, r, entry_side, clock_side):
+    """e == C − (E − C): the dots of the deciding replica clock C (of `clock_side`) that are no longer witnesses of the
+    entry (of `entry_side`) after C was subtracted from its clock E."""
+    C = leaf_param(clock_side, (r['clock'],))
+    return (e[0] == 'minus' and e[1] == C and e[2][0] == 'minus' and e[2][2] == C and e[2][1][0] == 'leaf'
+            and _entry_clock_match(e[2][1][1], r, ('clock',), entry_side))
 
 
 def mk_join(parts):
@@ -306,6 +321,8 @@ def merge_drop(ctx):
             kept = [alt for b, alt in keep_sites if b in rc.reachable]
             good = False
             seen = []
+            nbad = 0
+            nested = []
             for alt in kept:
                 v = S(alt)
                 if v[0] == 'agg' and v[3]:
@@ -317,6 +334,10 @@ def merge_drop(ctx):
                     seen.append(fmt_c(e))
                     if e[0] == 'minus' and e[2] == leaf_param(2, (r['clock'],)) and e[1][0] == 'leaf' and _entry_clock_match(e[1][1], r, sub, 1):
                         good = True
+                    else:
+                        nbad += 1
+                    if inst == 'map':
+                        nested.append(drop_lv(proj(entry, 'val')))
                 elif v[0] == 'const':
                     # retain form: the element is updated in place; look for reset_remove(entry clock, other.clock)
                     for b2, c2 in cit.calls.items():
@@ -324,6 +345,14 @@ def merge_drop(ctx):
                             a0, a1 = S(c2.args[0].val), S(c2.args[1].val)
                             if _entry_clock_match(a0, r, sub, 1) and is_field_of_param(a1, 2, (r['clock'],)):
                                 good = True
+            good = good and not nbad
+            if nested:
+                def reset_ok(v):
+                    return v[0] == 'post' and is_call(v[1], 'reset_remove') and v[2] == 0 and len(v[1][2]) == 2 \
+                        and removed_info(cexpr(v[1][2][1]), r, 1, 2)
+                ctx.check(all(reset_ok(v) for v in nested), name + '/nested', cb, 'every kept our-only entry carries a nested value reset with other.clock − (entry clock − other.clock)',
+                          'an our-only entry can be kept with a nested value that was not reset by what other has seen and removed (%s)'
+                          % [fmt(v, 4) for v in nested if not reset_ok(v)][:1], line=line, props=['C05', 'C20', 'C03', 'C09'])
             ctx.check(good, name + '/subtract', cb, 'kept entry clock = entry clock − other.clock',
                       'the witness clock of a kept entry is not reduced by other.clock (found %s): dots other has seen and removed stay as witnesses' % seen,
                       line=line, props=props)
@@ -410,8 +439,9 @@ def merge_drop(ctx):
             else:
                 ctx.ok(name, body, 'adopted exactly under NOT self.clock >= entry clock (pre-merge clock)', line=line, details=det, props=props)
         # adopted value: clock' = clock − self.clock (pre-merge)
-        good = False
+        good = True
         seen = []
+        nested = []
         for bb, c in ins:
             v = c.args[2].val
             clk = v
@@ -419,8 +449,17 @@ def merge_drop(ctx):
                 clk = proj(clk, f)
             e = cexpr(clk)
             seen.append(fmt_c(e))
-            if e[0] == 'minus' and e[2] == leaf_param(1, (r['clock'],)) and e[1][0] == 'leaf' and _entry_clock_match(e[1][1], r, sub, 2):
-                good = True
+            if not (e[0] == 'minus' and e[2] == leaf_param(1, (r['clock'],)) and e[1][0] == 'leaf' and _entry_clock_match(e[1][1], r, sub, 2)):
+                good = False
+            if inst == 'map':
+                nested.append(drop_lv(proj(v, 'val')))
+        if nested:
+            def reset_ok2(v):
+                return v[0] == 'post' and is_call(v[1], 'reset_remove') and v[2] == 0 and len(v[1][2]) == 2 \
+                    and removed_info(cexpr(v[1][2][1]), r, 2, 1)
+            ctx.check(all(reset_ok2(v) for v in nested), name + '/nested', body, 'every adopted entry carries a nested value reset with self.clock − (entry clock − self.clock)',
+                      'a their-only entry can be adopted with a nested value that was not reset by what we have seen and removed (%s)'
+                      % [fmt(v, 4) for v in nested if not reset_ok2(v)][:1], line=line, props=['C05', 'C20', 'C03', 'C09'])
         ctx.check(good, name + '/subtract', body, 'adopted entry clock = entry clock − self.clock (pre-merge)',
                   'the witness clock of an adopted entry is not reduced by the pre-merge self.clock (found %s)' % seen,
                   line=line, props=props)
@@ -497,6 +536,34 @@ def merge_common(ctx):
             ctx.ok(inst + '/formula', body, 'witness = (theirs ⊓ ours) ⊔ (theirs − self.clock) ⊔ (ours − other.clock)', line=line, details=det, props=props)
         # remove exactly when empty / assign otherwise
         common_term = drop_lv(c.args[0].val)
+        # no shortcut: every iteration that finds the entry on both sides recomputes the witness, and nothing but the
+        # recomputed witness is ever written to an entry clock of self inside the loop
+        lp0 = innermost_loop(it, bb)
+        if lp0:
+            from .loops import loops_of as _loops_of
+            lctx = [l for l in _loops_of(it) if l.head == lp0[0]]
+
+            def has_atom(t):
+                if t[0] == 'discr' and is_call(t[1], ('get', 'get_mut')) and len(t[1][2]) == 2 and param_path(versionless(t[1][2][0])) == (1, (r['entries'],)):
+                    return ('map', 'ours_has', {True: 1, False: 0})
+                if is_call(t, ('contains_key', 'contains')) and len(t[2]) == 2 and param_path(versionless(t[2][0])) == (1, (r['entries'],)):
+                    return 'ours_has'
+                return None
+            if lctx:
+                rch = Reach(facts, body, Evaluator(facts, bool_atom=has_atom, assumption={'ours_has': True}))
+                byp = not lctx[0].must(rch, [bb])
+                foreign = []
+                for (b2, si), w in it.writes.items():
+                    tgt = loc_target(it, w.loc)
+                    if b2 in lctx[0].blocks and tgt and tgt[0] == 1 and tgt[1] == (r['entries'],) and tgt[2] == 'ew' and tuple(tgt[3]) == tuple(sub) \
+                            and drop_lv(w.val) != common_term:
+                        foreign.append(b2)
+                if byp or foreign:
+                    ctx.fail(inst + '/shortcut', body, 'an entry present on both sides can get a witness clock other than the recomputed one (%s)'
+                             % ('a path of the iteration skips the recomputation' if byp else 'line %d writes another clock' % block_line(it, foreign[0])),
+                             line=block_line(it, foreign[0]) if foreign else line, props=props)
+                else:
+                    ctx.ok(inst + '/shortcut', body, 'both-present entries always go through the recomputation', line=line, props=props, nontrivial=False)
 
         def atom(t):
             if is_call(t, 'is_empty', self_adt='VClock') and t[2] and drop_lv(t[2][0]) == common_term:
@@ -541,6 +608,7 @@ def merge_common(ctx):
     'C20': 'nested data one side removed must not come back from the other side\'s stale entry (no residue of removed data)',
     'C05': 'when an entry survives with a reduced clock, what the other side removed under that key must be reset in the nested value',
     'C03': 'op delivery of the key remove would have reset the nested value',
+    'C09': 'nested data removed under a key must not come back when a stale copy of the entry is merged in',
 }, floor=3)
 def map_reset_pair(ctx):
     """Map::merge: in each of the three branches that keep an entry with a reduced clock, the nested value is
@@ -553,17 +621,25 @@ def map_reset_pair(ctx):
     for c, cb, mapping in _ours_closures(facts, it, r):
         cit = interp(facts, cb)
         ok = False
+        why = 'our-only entry kept with a reduced clock but its nested value is not reset by what other has seen'
+        # state captured by reference and written by the closure lives across items: never a fresh per-entry scratch
+        carried = set(w.loc[0][1][1] for w in list(cit.muts.values()) + list(cit.writes.values())
+                      if w.loc[0][0] == 'O' and w.loc[0][1][0] == 'upvar')
         for bb, c2 in cit.calls.items():
             if call_name(c2.term) == 'reset_remove' and len(c2.args) == 2:
                 a0 = subst(c2.args[0].val, mapping)
                 ev = elem_value_of(a0)
                 if ev and tuple(ev[3]) == ('val',) and param_path(ev[0]) and param_path(ev[0])[0] == 1:
-                    leaves = cleaves(cexpr(subst(c2.args[1].val, mapping)))
-                    if leaf_param(2, (r['clock'],))[1] in leaves:
-                        # must be on the keep path together with the clock subtraction
+                    e = cexpr(subst(c2.args[1].val, mapping))
+                    used = set(st[1] for st in subterms(c2.args[1].val) if st[0] == 'upvar')
+                    if used & carried:
+                        why = 'the clock the nested value is reset with is built in a variable shared by all entries (captured and ' \
+                              'modified by the closure): after the first entry it no longer starts from other.clock'
+                    elif removed_info(e, r, 1, 2):
                         ok = True
-        ctx.check(ok, 'merge/ours-only', cb, 'nested value reset with a clock derived from other.clock',
-                  'our-only entry kept with a reduced clock but its nested value is not reset by what other has seen', line=cb.line)
+                    else:
+                        why = 'our-only entry: nested value reset with %s, expected other.clock − (entry clock − other.clock)' % fmt_c(e)
+        ctx.check(ok, 'merge/ours-only', cb, 'nested value reset with other.clock − (entry clock − other.clock)', why, line=cb.line)
     if not _ours_closures(facts, it, r):
         # loop form of the our-only branch
         ok = False
@@ -572,13 +648,13 @@ def map_reset_pair(ctx):
             if call_name(c2.term) == 'reset_remove' and len(c2.args) == 2:
                 ev = elem_value_of(c2.args[0].val)
                 if ev and tuple(ev[3]) == ('val',) and ev[1] == '*' and param_path(ev[0]) == (1, (r['entries'],)):
-                    if leaf_param(2, (r['clock'],))[1] in cleaves(cexpr(c2.args[1].val)):
+                    if removed_info(cexpr(c2.args[1].val), r, 1, 2):
                         ok, ln = True, c2.line
         ctx.check(ok, 'merge/ours-only', body, 'nested value reset with a clock derived from other.clock (loop form)',
                   'our-only entry kept with a reduced clock but its nested value is not reset by what other has seen', line=ln)
     # theirs-only and both-present (main body)
     seen_t = seen_b = merged = False
-    both_msg = None
+    both_msg = theirs_msg = None
     lt = lb = body.line
     for bb, c2 in sorted(it.calls.items()):
         n = call_name(c2.term)
@@ -589,8 +665,12 @@ def map_reset_pair(ctx):
             pp = param_path(ev[0])
             leaves = cleaves(cexpr(c2.args[1].val))
             if pp and pp[0] == 2 and pp[1] == (r['entries'],):
-                if leaf_param(1, (r['clock'],))[1] in leaves:
-                    seen_t, lt = True, c2.line
+                e = cexpr(c2.args[1].val)
+                lt = c2.line
+                if removed_info(e, r, 2, 1):
+                    seen_t = True
+                else:
+                    theirs_msg = 'their-only entry: nested value reset with %s, expected self.clock − (entry clock − self.clock)' % fmt_c(e)
             if pp and pp[0] == 1 and pp[1] == (r['entries'],):
                 # deleted dots = (dots known to either side for this key) − (surviving witness): the minuend must
                 # draw on BOTH sides (entry clocks or replica clocks), otherwise resets observed by one side are lost
@@ -614,6 +694,6 @@ def map_reset_pair(ctx):
                 if param_path(e0[0]) and param_path(e0[0])[0] == 1 and param_path(e1[0]) and param_path(e1[0])[0] == 2:
                     merged = True
     ctx.check(seen_t, 'merge/theirs-only', body, 'adopted nested value reset with a clock derived from the pre-merge self.clock',
-              'their-only entry adopted with a reduced clock but its nested value is not reset by what we have seen and removed', line=lt)
+              theirs_msg or 'their-only entry adopted with a reduced clock but its nested value is not reset by what we have seen and removed', line=lt)
     ctx.check(seen_b and merged, 'merge/both', body, 'nested values merged, then reset by the dots that left the entry clock',
               both_msg or 'entry on both sides: nested values are not merged and reset by the deleted dots (merged=%s, reset=%s)' % (merged, seen_b), line=lb)
